@@ -8,8 +8,10 @@
 package ssa
 
 import (
+	"fmt"
 	"go/constant"
 	"go/types"
+	"os"
 )
 
 // InlineOptions selects the calls to inline.
@@ -518,6 +520,27 @@ func splitReturn(f *Function, k *BasicBlock) bool {
 
 func rebuild(f *Function) {
 	removeUnreachable(f)
+	if os.Getenv("IKELINT_DEBUG_INLINE") != "" {
+		fmt.Fprintf(os.Stderr, "rebuild %s: %d blocks recover=%v\n", f, len(f.Blocks), f.Recover != nil)
+		for _, b := range f.Blocks {
+			fmt.Fprintf(os.Stderr, "  %p %q ->", b, b.Comment)
+			for _, s := range b.Succs {
+				fmt.Fprintf(os.Stderr, " %p", s)
+			}
+			fmt.Fprintln(os.Stderr)
+		}
+		in := map[*BasicBlock]bool{}
+		for _, b := range f.Blocks {
+			in[b] = true
+		}
+		for _, b := range f.Blocks {
+			for _, s := range b.Succs {
+				if !in[s] {
+					fmt.Fprintf(os.Stderr, "rebuild %s: block %q has successor %q outside f.Blocks\n", f, b.Comment, s.Comment)
+				}
+			}
+		}
+	}
 	for i, blk := range f.Blocks {
 		blk.Index = i
 	}
@@ -796,6 +819,9 @@ func removeUnreachable(f *Function) {
 		}
 	}
 	visit(f.Blocks[0])
+	if f.Recover != nil {
+		visit(f.Recover) // entered by the runtime, not by an edge
+	}
 	var kept []*BasicBlock
 	for _, b := range f.Blocks {
 		if reach[b] {
